@@ -60,6 +60,23 @@ structure ImageDs where
   oriSlide : List Rat := []
   deriving Repr, Inhabited
 
+/-- what `get_image_coordinate_system` looks at: the keywords present at the root of the dataset, and which of the present
+functional-group sequences hold `PlanePositionSequence[0].ImagePositionPatient` in their FIRST item -/
+structure CoordInput where
+  present : List String
+  firstItemHasPatientPosition : List String
+  deriving Repr, Inhabited
+
+/-- `get_image_coordinate_system`: no frame of reference = none; a slide marker (regenerated list) = SLIDE, even when patient
+positions are present too; otherwise PATIENT iff an image position is found at the root or in the first item of one of the
+(regenerated) functional-group sequences -/
+def imageCoordinateSystem (d : CoordInput) : Option Coord :=
+  if !d.present.contains "FrameOfReferenceUID" then none
+  else if Gen.slideMarkers.any d.present.contains then some .slide
+  else if d.present.contains "ImagePositionPatient" then some .patient
+  else if Gen.patientGroupSequences.any (fun k => d.present.contains k && d.firstItemHasPatientPosition.contains k) then some .patient
+  else none
+
 /-- Python's `seq[i]` (negative indices count from the end) -/
 def pyIndex {α : Type} (l : List α) (i : Int) : Except ErrKind α :=
   let j := if i < 0 then i + l.length else i
